@@ -5,6 +5,8 @@ PAR="${1:-3}"
 cd /verif
 : > /tmp/regress_seeds.log
 for d in seeded/C*/; do
+  # changes that a later repair of /repo neutralised are not expected to be reported any more
+  if python3 -c "import json,sys;sys.exit(0 if 'obsolete' in json.load(open('$d/meta.json')) else 1)"; then continue; fi
   p=$(python3 -c "import json;print(json.load(open('$d/meta.json'))['property'])")
   echo "$d $p"
 done | xargs -P "$PAR" -L 1 sh -c 'tools/try_seed_wt.sh $0 $1 >> /tmp/regress_seeds.log 2>&1'
